@@ -54,9 +54,10 @@ struct Verdict {
 };
 
 // ---- linearizability (Wing-Gong with memoisation) ----
-struct LinOp { uint64_t inv, ret; int idx; };
+struct LinOp { uint64_t inv, ret; int idx; int task = -1; };
 // step(state, idx) -> true and updates state if the op's recorded result is consistent
 // returns: 1 linearizable, 0 not, -1 budget exceeded
 int lin_check(const std::vector<LinOp>& ops, uint64_t init_state,
               const std::function<bool(uint64_t&, int)>& step,
-              const std::function<bool(uint64_t)>& final_ok, uint64_t budget, uint64_t* states_out);
+              const std::function<bool(uint64_t)>& final_ok, uint64_t budget, uint64_t* states_out, bool po_only = false);
+// po_only: only each task's program order constrains the total order (sequential consistency) instead of real time
